@@ -52,6 +52,21 @@ theorem switch_stale_error_ignored {α} (st : St SwSt) (k : Nat) (n : Notif (HV 
       simp [emits, subsOf]
   · simp [step_src_not_live _ _ _ _ hk]
 
+/-- **switch_completes_iff.** Walk the delivered notifications remembering the latest arrived inner, whether it has completed
+since it arrived, and whether the outer completed (`swTStep`). The output completes if and only if, at the end of the
+delivered notifications, the outer has completed and there is no latest inner or the latest inner has completed
+(`swRule`) — and then it completes in the very step that makes this true (the notifications delivered stop there). In
+particular a completion of a stale inner, or of the latest inner while the outer is still running, does not complete. -/
+theorem switch_completes_iff {α} (es : List (Ev (HV α))) :
+    Notif.completed ∈ emits (run (swM (α := α)) (hoInit {}) es)
+      ↔ swRule ((accepted (swM (α := α)) (hoInit {}) es).foldl swTStep {}) := by
+  have h := rule_run (swM (α := α)) SwI swAbs swTStep swRule
+    (fun st e h => sw_step_I st e h) (fun st h => h.wf) (fun st e h => sw_abs_step st e h)
+    (fun st k n h _ hr => sw_rule_step st k n h hr)
+    (fun st _ => by simp [step, swM, Plumb.acts])
+    es (hoInit {}) ⟨hoInit_WF _, fun _ => rfl⟩ (by simp [swRule, swAbs, hoInit])
+  simpa [swAbs, hoInit] using h
+
 /-- non-vacuity: inner 1 is replaced by inner 2 while still open; a late element and a late error of inner 1 are ignored -/
 example :
     run (swM (α := Nat) ) (hoInit {})
